@@ -1,6 +1,8 @@
 // Package utils provides shared utility functions used across the WTF application.
 package utils
 
+import "os"
+
 // Min returns the minimum of two integers.
 func Min(a, b int) int {
 	if a < b {
@@ -27,4 +29,22 @@ func BufferCap(n, limit, factor int) int {
 		return n
 	}
 	return limit * factor
+}
+
+// WriteFileAtomic replaces the file at path with data without ever exposing a
+// partial file: the content goes to a temporary file in the same directory
+// first and is renamed over path only once it has been written completely.
+// If the write is cut short (disk full, quota, process killed) path keeps its
+// previous content.
+func WriteFileAtomic(path string, data []byte, perm os.FileMode) error {
+	tmp := path + ".tmp"
+	if err := os.WriteFile(tmp, data, perm); err != nil {
+		_ = os.Remove(tmp)
+		return err
+	}
+	if err := os.Rename(tmp, path); err != nil {
+		_ = os.Remove(tmp)
+		return err
+	}
+	return nil
 }
